@@ -15,7 +15,10 @@ class KDSubset(Subset):
         if item == "dataset":
             return getattr(super(), item)
         if item.startswith("getall_"):
-            # subsample getitem_ with the indices
+            # subsample getitem_ with the indices (only if the wrapped dataset has the bulk accessor
+            # such that hasattr(subset, "getall_...") is truthful and getall(...) can fall back to sample-wise loading)
+            if not hasattr(self.dataset, item):
+                raise AttributeError(f"'{type(self.dataset).__name__}' object has no attribute '{item}'")
             return partial(self._call_getall, item)
         return getattr(self.dataset, item)
 
